@@ -129,12 +129,31 @@ def rule_lenguard(run):
         fi = prog.func('mulgrids.mulgrid.' + m)
         key = 'mulgrid.%s :: length guard' % m
         guards = []
+        # the variable by role: whatever is returned (first element of a returned pair)
+        rets0 = [r for r in walk_no_nested(fi.node) if isinstance(r, ast.Return) and r.value is not None]
+        rnames = set()
+        for r in rets0:
+            v = r.value
+            if isinstance(v, ast.Tuple) and v.elts: v = v.elts[0]
+            rnames.add(norm(v))
+        # ... or, when several things are returned, the one variable whose length is tested before raising the naming error
+        gnames = set()
+        for n_ in walk_no_nested(fi.node):
+            if isinstance(n_, ast.If) and isinstance(n_.test, ast.Compare) and len(n_.test.ops) == 1 and isinstance(n_.test.left, ast.Call) and \
+               call_name(n_.test.left) == 'len' and n_.test.left.args and isinstance(n_.test.left.args[0], ast.Name) and \
+               any(isinstance(s_, ast.Raise) and s_.exc is not None and 'NamingConventionError' in norm(s_.exc) for s_ in n_.body):
+                gnames.add(n_.test.left.args[0].id)
+        idn = set(r_ for r_ in rnames if r_.isidentifier())
+        if len(idn) == 1 and (len(rnames) == 1 or idn == gnames): rname = list(idn)[0]
+        elif len(gnames) == 1 and not idn: rname = list(gnames)[0]
+        else:
+            run.unknown(key, 'returned name variable not identified: %s' % sorted(rnames), where=fi.where()); continue
 
         def is_guard(n):
             if not isinstance(n, ast.If): return False
             t = n.test
             if isinstance(t, ast.Compare) and len(t.ops) == 1 and isinstance(t.left, ast.Call) and call_name(t.left) == 'len' \
-               and isinstance(t.left.args[0], ast.Name) and t.left.args[0].id == 'name':
+               and isinstance(t.left.args[0], ast.Name) and t.left.args[0].id == rname:
                 raises = any(isinstance(s, ast.Raise) and s.exc is not None and
                              'NamingConventionError' in norm(s.exc) for s in n.body)
                 if raises:
@@ -162,7 +181,7 @@ def rule_lenguard(run):
             v = r.value
             if isinstance(v, ast.Tuple): v = v.elts[0]
             names.add(norm(v))
-        run.shape(names == set(['name']), 'mulgrid.%s :: returns the guarded name' % m, 'returns %s' % sorted(names), where=fi.where())
+        run.shape(names == set([rname]), 'mulgrid.%s :: returns the guarded name' % m, 'returns %s' % sorted(names), where=fi.where())
     # node_col_name_from_number pads to the column name length
     nc = prog.func('mulgrids.mulgrid.node_col_name_from_number')
     uses = [n for n in ast.walk(nc.node) if is_self_attr(n) and n.attr.endswith('name_length')]
@@ -330,6 +349,61 @@ def rule_uniq(run):
     else: run.unknown(key, 'form `%s` not recognised' % norm(rets[0].value), where=fi.where(rets[0]))
 
 
+def rule_namespace(run):
+    run.rule('NAMESPACE', 'new_<kind>_name() searches for an unused name in the dictionary that add_<kind>() registers objects of that kind '
+             'in: searched against another dictionary, a name already taken by an object of the kind is handed out again and add_<kind>() '
+             'silently drops the new object', floor=2)
+    import re
+    prog = run.prog
+    cls = prog.cls('mulgrids', 'mulgrid')
+    for mname, fi in sorted(cls.methods.items()):
+        m = re.match(r'new_(\w+)_name$', mname)
+        if not m: continue
+        kind = m.group(1)
+        key = 'mulgrid.%s :: searches the dictionary add_%s fills' % (mname, kind)
+        adder = cls.methods.get('add_' + kind)
+        calls = [c for c in walk_no_nested(fi.node) if isinstance(c, ast.Call) and call_name(c) == 'new_dict_key' and c.args]
+        if adder is None or len(calls) != 1:
+            run.unknown(key, 'adder or key search not found', where=fi.where()); continue
+        filled = set(norm(t.value) for st in ast.walk(adder.node) if isinstance(st, ast.Assign) for t in st.targets
+                     if isinstance(t, ast.Subscript) and isinstance(t.slice, ast.Attribute) and t.slice.attr == 'name')
+        searched = norm(calls[0].args[0])
+        if len(filled) != 1:
+            run.unknown(key, 'dictionary filled by add_%s not identified: %s' % (kind, sorted(filled)), where=adder.where()); continue
+        if searched in filled: run.ok(key, searched, where=fi.where(calls[0]))
+        else:
+            run.violated(key, 'the unused name is searched for in `%s` but add_%s() registers under `%s`' % (searched, kind, sorted(filled)[0]),
+                         where=fi.where(calls[0]), robust=True)
+
+
+def rule_uniqlast(run):
+    run.rule('UNIQLAST', 'where a function makes the naming alphabet repeat-free with uniqstring() and also transforms it (case conversion), '
+             'uniqstring() is applied last: a transformation that is not one-to-one ("aA" -> "AA") applied afterwards puts the repeats back '
+             'and two numbers get the same name', floor=5)
+    prog = run.prog
+    n = 0
+    for fi in prog.all_functions(['mulgrids']):
+        rebinds = {}
+        for st in walk_no_nested(fi.node):
+            if isinstance(st, ast.Assign) and len(st.targets) == 1 and isinstance(st.targets[0], ast.Name):
+                v = st.targets[0].id
+                if any(isinstance(x, ast.Name) and x.id == v for x in ast.walk(st.value)):
+                    is_uniq = isinstance(st.value, ast.Call) and call_name(st.value) == 'uniqstring'
+                    rebinds.setdefault(v, []).append(((st.lineno, st.col_offset), is_uniq, st))
+        for v, lst in sorted(rebinds.items()):
+            if not any(u for _, u, _ in lst): continue
+            n += 1
+            lst.sort(key=lambda t: t[0])
+            key = '%s :: `%s` is made repeat-free after every other transformation' % (fi.short, v)
+            last_u = max(pos for pos, u, _ in lst if u)
+            later = [st for pos, u, st in lst if not u and pos > last_u and isinstance(st.value, ast.Call)]
+            if later:
+                run.violated(key, '`%s` comes after the uniqstring() call: an alphabet with both cases of a letter has repeats again when it '
+                             'reaches the name generators' % norm(later[0]), where=fi.where(later[0]), robust=True)
+            else: run.ok(key, where=fi.where(lst[0][2]))
+    run.ok('functions that make an alphabet repeat-free', {'count': n})
+
+
 def rule_memo(run):
     run.rule('MEMO', 'a result remembered between calls (memo dictionary, caching decorator) is keyed by every parameter it depends on', floor=1)
     from .memo import memo_rule
@@ -338,6 +412,8 @@ def rule_memo(run):
 
 def check(run):
     run.guarded('UNIQ', rule_uniq)
+    run.guarded('UNIQLAST', rule_uniqlast)
+    run.guarded('NAMESPACE', rule_namespace)
     run.guarded('MEMO', rule_memo)
     run.guarded('SLICE', rule_slice)
     run.guarded('LENGUARD', rule_lenguard)
